@@ -312,10 +312,10 @@ def check_property(prop, tier, seed, only=None, jobs=0, do_replay=True, write_ev
                 inuse[0] += spec.get("mem_gb", 12)
             try:
                 r = run_harness(spec, slot, prop, logdir)
-            except core.InfraError as e:
+            except Exception as e:  # InfraError or anything unexpected: never leave `inuse` raised (the other workers would wait for ever)
                 r = {"spec": spec, "rc": -1, "timed_out": False, "wall_s": 0,
                      "parsed": {"checks": [], "stubs": [], "verdict": None, "stats": {}, "compile_error": False,
-                                "playback": []}, "log": None, "cmd": "", "infra": str(e)}
+                                "playback": []}, "log": None, "cmd": "", "infra": "%s: %s" % (type(e).__name__, e)}
             r["cls"] = classify(spec, prop, r["parsed"], r["timed_out"], r["rc"])
             if r.get("infra"):
                 r["cls"].update(status="infra", reason=r["infra"])
